@@ -710,6 +710,20 @@ def expression_form_scenarios():
             b.print(lit("done"))
             body = {"snips": [{"prog": b.toks}], "mods": mods} if mods else b.toks
             out.append(("expr:csetf:%s:%s" % (op, target), body))
+    # shift counts around the word size (0, 1, 31..33, 62..65, 127, 128, negative) and bit operations on negative operands: one
+    # program per case, so that a result outside the machine's exact number domain costs only that case
+    for op, a, c in itertools.product(("<<", ">>"), (1, -1, 3, 0, 1048575), (0, 1, 31, 32, 33, 62, 63, 64, 65, 127, 128, -1)):
+        b = Builder()
+        b.var("x", lit(a))
+        b.try_(); b.print(bin_(op, b.v("x"), lit(c))); b.print(b.cassign("x", op, lit(c))); b.print(b.v("x"))
+        b.catch("e"); b.print(tup(lit("error"), call(b.v("type"), b.v("e")), get(b.v("e"), "context"))); b.end()
+        out.append(("expr:shift:%s:%d:%d" % (op, a, c), b.toks))
+    for op, a, c in itertools.product(("&", "|", "^", "%", "/"), (7, -7, 0, -1), (3, -3, 0, -1)):
+        b = Builder()
+        b.var("x", lit(a))
+        b.try_(); b.print(bin_(op, b.v("x"), lit(c))); b.print(b.cassign("x", op, lit(c))); b.print(b.v("x"))
+        b.catch("e"); b.print(tup(lit("error"), call(b.v("type"), b.v("e")), get(b.v("e"), "context"))); b.end()
+        out.append(("expr:bits:%s:%d:%d" % (op, a, c), b.toks))
     # chained / nested assignments and short-circuit operators with effects on both sides
     for variant in range(12):
         b = Builder()
